@@ -6,6 +6,7 @@ import (
 	"fmt"
 	"net/http"
 	"path/filepath"
+	"strings"
 	"sync"
 	"sync/atomic"
 	"time"
@@ -17,6 +18,7 @@ import (
 	"verif/core"
 	"verif/drv"
 	"verif/mon"
+	"verif/pager"
 	"verif/ref"
 )
 
@@ -40,7 +42,8 @@ func init() {
 		Run:         runC13,
 		Floors: func(tier string) map[string]int {
 			return map[string]int{"forwarded_commits": 60, "release_gate_passages": 20, "forwarded_journal": 10, "forwarded_wal": 10, "grants": 40, "local_writer_blocked": 4,
-				"forged_tx_rejected": 12, "reacquire_same_lock": 4, "primary_writes_after_release": 8, "expired_holder_rejected": 4, "third_replica_converged": 4, "acquire_raced_with_local_commit": 4}
+				"forged_tx_rejected": 12, "reacquire_same_lock": 4, "primary_writes_after_release": 8, "expired_holder_rejected": 4, "third_replica_converged": 4, "acquire_raced_with_local_commit": 4,
+				"stale_release_ignored": 3, "catchup_waited_for_reader": 1, "refused_forward_left_nothing": 1, "local_drop_blocked": 1}
 		},
 	})
 }
@@ -118,6 +121,7 @@ func postTx(url string, nodeID uint64, lockID string, body []byte) (int, error) 
 
 func runC13(c *core.Case) {
 	script := c13Scripts[c.Index%len(c13Scripts)]
+	stalledCatchup := (c.Index/(2*len(c13Scripts)))%2 == 1
 	wal := (c.Index/len(c13Scripts))%2 == 1
 	ps := []uint32{1024, 4096, 512}[c.Rng.IntN(3)]
 	nodes := []cluster.NodeOpts{{Candidate: true}, {}}
@@ -200,6 +204,9 @@ func runC13(c *core.Case) {
 	switch script {
 	case "acquire-during-catchup":
 		// the replica asks for the lock while transactions are still on their way to it
+		if stalledCatchup {
+			e.p.Proxy.SetMode("stall") // the stream stops: the replica falls behind for certain
+		}
 		if pw.conn == nil {
 			if pw, err = newWriter(e.p.Node, "db", ps, wal, "delete", pw.d.M, c.SubRng("pw1"), e.led, 1); err == nil {
 				e.pw = pw
@@ -262,6 +269,55 @@ func runC13(c *core.Case) {
 		}
 		posAtGrant = mon.PosOf(e.p.Node, "db")
 		c.Count("acquire_raced_with_local_commit", 1)
+	} else if script == "acquire-during-catchup" && stalledCatchup {
+		// An application on the replica is inside a read transaction while the
+		// replica, asking for the halt lock, catches up: the catch-up transactions
+		// are applied by LiteFS itself and must wait for the reader like any other
+		// replicated transaction (C11), then the lock is granted.
+		const rOwner = 7311
+		rpos := mon.PosOf(e.r.Node, "db")
+		rf, rerr := e.r.Node.Open("db")
+		if rerr != nil {
+			c.Inconclusive("reader open: " + rerr.Error())
+			return
+		}
+		if lockRetry(rf, rOwner, pager.PendingByte, pager.PendingByte, false, 2000) != nil ||
+			lockRetry(rf, rOwner, pager.SharedFirst, pager.SharedFirst+pager.SharedSize-1, false, 2000) != nil {
+			rf.Close(rOwner)
+			c.Inconclusive("reader locks busy")
+			return
+		}
+		_ = rf.Unlock(rOwner, pager.PendingByte, pager.PendingByte)
+		var rshm *drv.File
+		if sf, serr := e.r.Node.Open("db-shm"); serr == nil {
+			rshm = sf
+			_ = lockRetry(rshm, rOwner, pager.WalDMS, pager.WalDMS, false, 2000)
+			_ = lockRetry(rshm, rOwner, pager.WalRead0, pager.WalRead0, false, 2000)
+		}
+		acq := make(chan error, 1)
+		go func() { acq <- e.acquire() }()
+		hb0 := e.r.Client.Heartbeats.Load()
+		e.p.Proxy.SetMode("pass")
+		for dl := time.Now().Add(5 * time.Second); time.Now().Before(dl) && e.r.Client.Heartbeats.Load() < hb0+2 && mon.PosOf(e.r.Node, "db") == rpos; {
+			time.Sleep(2 * time.Millisecond)
+		}
+		now := mon.PosOf(e.r.Node, "db")
+		if rshm != nil {
+			rshm.Close(rOwner)
+		}
+		rf.Close(rOwner)
+		if now != rpos {
+			c.Violate("C13/catchup-applied-under-reader-lock", fmt.Sprintf("while the replica caught up for a halt lock, LiteFS applied transactions (%s -> %s) although a local reader held its read locks", rpos, now), e.detail(nil))
+			return
+		}
+		c.Count("catchup_waited_for_reader", 1)
+		select {
+		case err = <-acq:
+		case <-time.After(30 * time.Second):
+			c.Violate("C13/acquire-hangs", "halt lock acquisition did not return within 30 s after the reader finished", e.detail(nil))
+			return
+		}
+		posAtGrant = mon.PosOf(e.p.Node, "db")
 	} else {
 		err = e.acquire()
 	}
@@ -409,6 +465,17 @@ func runC13(c *core.Case) {
 		if !forward(1, script+" (after local attempt)") {
 			return
 		}
+		// `rm db` on the primary is a local transaction as well (the drop)
+		if (c.Index/len(c13Scripts))%4 == 3 {
+			before := mon.PosOf(e.p.Node, "db")
+			rerr := e.p.Node.Remove("db")
+			after := mon.PosOf(e.p.Node, "db")
+			if after != before {
+				c.Violate("C13/local-drop-during-halt", fmt.Sprintf("the primary dropped the database locally (%s -> %s, unlink answered %v) while a replica holds its halt lock", before, after, rerr), e.detail(nil))
+				return
+			}
+			c.Count("local_drop_blocked", 1)
+		}
 	case "non-holder-tx":
 		if !forward(1, script) {
 			return
@@ -482,6 +549,16 @@ func runC13(c *core.Case) {
 		return true
 	}
 	if script == "non-holder-tx" {
+		// a late or repeated release of ANOTHER lock (an earlier holder whose lock
+		// has expired, a retried DELETE): the current holder's lock must survive it
+		for _, stale := range []int64{hl.ID + 1, 1, hl.ID - 7} {
+			_ = lhttp.NewClient().ReleaseHaltLock(context.Background(), e.p.URL(), 0x5151, "db", stale)
+			if got := e.p.Store.DB("db").VerifHaltLockID(); got != hl.ID {
+				c.Violate("C13/stale-release-dropped-lock", fmt.Sprintf("DELETE /halt with lock id %d (not the current lock %d) changed the primary's halt lock to %d: the holder neither released it nor did it expire", stale, hl.ID, got), e.detail(nil))
+				return
+			}
+			c.Count("stale_release_ignored", 1)
+		}
 		if !forged("with a wrong lock id while R holds the lock", "424242", 0x1234) {
 			return
 		}
@@ -516,6 +593,20 @@ func runC13(c *core.Case) {
 		}
 		c.Count("expired_holder_rejected", 1)
 		outcome = "expired"
+		// a refused forwarded commit leaves nothing behind on the former holder: if it
+		// is still running, its position is where it was and its transaction log ends
+		// exactly there (nothing published locally that the primary never accepted)
+		if len(e.r.Node.Exits()) == 0 && werr != nil {
+			if ra != rb {
+				c.Violate("C13/refused-forward-moved-holder", fmt.Sprintf("the forwarded commit was refused (%v) but the former holder moved %s -> %s", werr, rb, ra), e.detail(nil))
+				return
+			}
+			if probs := mon.ChainProblems(filepath.Join(mon.DBDir(e.r.Node, "db"), "ltx"), ra.TXID, ra.Chk); len(probs) > 0 {
+				c.Violate("C13/refused-forward-left-ltx", fmt.Sprintf("the forwarded commit was refused (%v) and the former holder stays at %s, but its transaction log does not end there: %s", werr, ra, strings.Join(probs, "; ")), e.detail(nil))
+				return
+			}
+			c.Count("refused_forward_left_nothing", 1)
+		}
 		// R may have exited fatally (WAL) or rolled back; its local state is no longer judged
 	} else {
 		rw.close()
